@@ -3,6 +3,7 @@ package main
 import (
 	"bytes"
 	"context"
+	"time"
 	"encoding/json"
 	"errors"
 	"fmt"
@@ -102,6 +103,8 @@ func rowsString(rows []sut.WalkRow) string {
 // the *-massive operations run the From-Root side with WithMassive (a single root: the result is schedule-independent)
 // and compare it with the simple From-Markdown result
 var c03Ops = []string{"text", "text-fmt1", "text-fmt5", "json", "yaml", "toml", "walk", "walkiter", "text-massive", "walk-massive", "json-massive"}
+var massiveHung bool
+
 var c03FSOps = []string{"mkdir", "mkdir-ext", "verify", "verify-strict", "mkdir-dry", "mkdir+verify-strict"}
 
 // c03Op runs one operation through the From-Root family (root != nil) or the From-Markdown family.
@@ -121,9 +124,11 @@ func c03Op(op string, root *gtree.Node, doc string, alias bool) (res opResult, p
 		target = j.Target
 		opts = append(opts, gtree.WithTargetDir(j.Target))
 	}
+	massive := false
 	if strings.HasSuffix(op, "-massive") {
 		op = strings.TrimSuffix(op, "-massive")
 		if root != nil {
+			massive = true
 			opts = append(opts, gtree.WithMassive(context.Background()))
 		}
 	}
@@ -153,7 +158,27 @@ func c03Op(op string, root *gtree.Node, doc string, alias bool) (res opResult, p
 	var kept []*gtree.WalkerNode // nodes handed out are kept and read again after the walk: they must still describe their own node
 	cb := func(wn *gtree.WalkerNode) error { rows = append(rows, sut.FromWalker(wn)); kept = append(kept, wn); return nil }
 	rd := func() *strings.Reader { return strings.NewReader(doc) }
-	pan = sut.Guard(func() {
+	run := func(f func()) {
+		if !massive {
+			pan = sut.Guard(f)
+			return
+		}
+		// a massive call runs on real goroutines here: give it 60 s (it takes microseconds) so that a tree in which
+		// the call never returns ends with a report instead of a hanging check
+		if massiveHung {
+			pan = "massive call skipped: an earlier massive call in this process did not return"
+			return
+		}
+		done := make(chan string, 1)
+		go func() { done <- sut.Guard(f) }()
+		select {
+		case pan = <-done:
+		case <-time.After(60 * time.Second):
+			massiveHung = true
+			pan = "massive From-Root call did not return within 60 s"
+		}
+	}
+	run(func() {
 		switch op {
 		case "text", "text-fmt1", "text-fmt5", "json", "yaml", "toml", "dry":
 			switch {
